@@ -36,16 +36,26 @@ var GhostKnown map[string]bool
 //@   abstract
 func SpecUeOf(supi string) *ChfUe { return nil }
 
-// NewCHFUe builds the subscriber context with go-diameter state machines and id generators, which
-// are outside the verified subset: its contract is assumed.
-//@ func (*CHFContext).NewCHFUe [C11 C12 C10]
+// (*ChfUe).init builds the go-diameter state machines and clients and draws session ids (outside the
+// verified subset): assumed to establish the subscriber-context invariant.
+//@ func (*ChfUe).init [C11 C12 C10]
 //@   trusted
-//@   ensures result1 == nil ==> SpecUeOK(result0) && result0 == SpecUeOf(supi) && GhostKnown[supi]
-//@   ensures result1 != nil ==> GhostKnown[supi] == old(GhostKnown[supi])
-//@   ensures forall k string :: k != supi ==> GhostKnown[k] == old(GhostKnown[k])
-//@   modifies mapof(GhostKnown)
-//@   ensures result1 != nil ==> result0 == nil
+//@   ensures SpecUeOK(ue)
+//@   modifies obj(ue)
 
+// NewCHFUe: only SUPIs of the form "imsi-..." get a context (the charging operations slice the SUPI after
+// that prefix); the ghost view of the pool (SpecUeOf, GhostKnown) is assumed to follow the sync.Map.
+//@ func (*CHFContext).NewCHFUe [C11 C12 C10]
+//@   requires context != nil
+//@   ensures (result1 == nil) == (result0 != nil)
+//@   ensures result1 == nil ==> old(GhostKnown[supi]) || strings.HasPrefix(supi, "imsi-")
+//@   ensures assumed result1 == nil ==> SpecUeOK(result0) && result0 == SpecUeOf(supi) && GhostKnown[supi]
+//@   ensures assumed result1 != nil ==> GhostKnown[supi] == old(GhostKnown[supi])
+//@   ensures assumed forall k string :: k != supi ==> GhostKnown[k] == old(GhostKnown[k])
+//@   modifies mapof(GhostKnown)
+
+// Pool invariant (assumed on the lookup; established by NewCHFUe above, the only function that adds to the pool):
+// a SUPI that is found starts with "imsi-".
 //@ func (*CHFContext).ChfUeFindBySupi [C11 C12 C10 C01 C06]
 //@   trusted
 //@   ensures result1 == GhostKnown[supi]
